@@ -245,12 +245,14 @@ SyncResult(info) ==
       growth(p) == p > info.prevC /\ p <= commit /\ pm[p] = Absent
       pagesInc == [p \in Pages |-> IF growth(p) THEN dbf[p] ELSE pm[p]]
       pagesSnap == [p \in Pages |-> IF p > commit THEN Absent ELSE IF pm[p] # Absent THEN pm[p] ELSE dbf[p]]
-      pages == IF info.snap THEN pagesSnap ELSE pagesInc
-      readErr == \E p \in Pages : p <= commit /\ pages[p] = Absent /\ (info.snap \/ growth(p))
-  IN IF ~info.snap /\ n = 0
+      \* (a previous frame that does not verify any more means the WAL changed after verify(): the file is a snapshot - repair of M2)
+      snap2 == info.snap \/ ~prevOK
+      pages == IF snap2 THEN pagesSnap ELSE pagesInc
+      readErr == \E p \in Pages : p <= commit /\ pages[p] = Absent /\ (snap2 \/ growth(p))
+  IN IF ~snap2 /\ n = 0
        THEN [skip |-> TRUE, err |-> FALSE]
        ELSE [skip |-> FALSE, err |-> readErr,
-             ltx  |-> [off |-> off2, n |-> n, gen |-> g2, commit |-> commit, pages |-> pages, snap |-> info.snap],
+             ltx  |-> [off |-> off2, n |-> n, gen |-> g2, commit |-> commit, pages |-> pages, snap |-> snap2],
              lastOff |-> off2 + n,
              toEnd |-> (off2 + n = Len(wal))]
 
